@@ -669,7 +669,7 @@ Section DirProofs.
           rewrite (present_iff k cs m Hwf Hm Hs) in Hbound. rewrite (count_len cs m Hwf Hm Hs) in Hbound.
           destruct (to_basic_ok (walk (Node cs)) [] (c_maxlinks c)) as [l [Hl1 [Hl2 Hl3]]].
           -- cbn [map app]. apply (walk_nodup cs Hwf).
-          -- cbn [llen Nat.add]. rewrite <- (same_length _ m (walk_nodup cs Hwf) Hm Hs) in Hbound.
+          -- cbn [llen Nat.add]. rewrite (same_length _ m (walk_nodup cs Hwf) Hm Hs).
              destruct (mget k m); lia.
           -- rewrite Hl1.
              assert (Hsl : same l m).
@@ -679,7 +679,6 @@ Section DirProofs.
              ++ destruct Hb as [H1 H2]. exists (mput k v m). split; [reflexivity|]. apply Hgood_add; [apply RelB; assumption|].
                 intros Hd. congruence.
              ++ exfalso. destruct Hb as [_ [Hg Hcap]]. rewrite Hg in Hbound.
-                rewrite (same_length _ m (walk_nodup cs Hwf) Hm Hs) in Hbound.
                 apply andb_true_iff in Hcap. destruct Hcap as [C1 C2]. apply Z.ltb_lt in C1. apply Z.ltb_lt in C2. lia.
         * pose proof (hamt_add_ok cs k v m Hwf Hm Hs) as Ha.
           destruct (hamt_add hidx k v cs (count cs)) as [[cs' tl']|e]; cbn [res_of fst snd spec_step].
@@ -722,7 +721,8 @@ Section DirProofs.
     - (* Find *)
       cbn [step fst snd]. exists m. split; [|split; auto].
       inversion HR as [l m0 Hl Hs|cs tl m0 Hwf Htl Hs]; subst; unfold find_step.
-      + cbn [spec_step]. unfold mget. rewrite (bget_same k l m Hl Hm Hs). apply find_eq_spec.
+      + cbn [spec_step]. unfold mget. rewrite (bget_same k l m Hl Hm Hs).
+        destruct (option_map v_id (bget k m)) as [a|]; [rewrite Z.eqb_refl|]; reflexivity.
       + pose proof (find_spec hidx (hidx k) 0 k cs Hwf eq_refl) as Hf.
         pose proof (find_not_toodeep (hidx k) 0 k cs Hwf eq_refl (root_depth k)) as Hnt.
         destruct (find (hidx k) k cs) as [v0| |]; [| |congruence]; cbn [spec_step]; unfold mget.
@@ -798,4 +798,52 @@ Theorem model_meets_spec : forall c hidx hamt0 ops,
 Proof.
   intros c hidx hamt0 ops Hlen Hpos Hops.
   apply (run_ok c hidx Hlen Hpos hamt0 ops (init_dir hamt0) [] (init_good c hidx hamt0) Hops).
+Qed.
+
+(* ------------------------------------------------------------------ *)
+(** * the defect of the current code (finding C15-1): totalLinks after a reload *)
+Local Open Scope string_scope.
+Definition wit_hidx (k : name) : list Z :=
+  if String.eqb k "a" then [0; 0] else if String.eqb k "b" then [0; 1]
+  else if String.eqb k "c" then [0; 2] else if String.eqb k "d" then [1; 0] else [7; 7].
+Definition wit_cfg : cfg := mkcfg 3 1%nat 2 true true true.
+Definition wit_val : val := mkval 0 34 10.
+Definition wit_ops : list op :=
+  [OAdd "a" wit_val false; OAdd "b" wit_val false; OAdd "c" wit_val false; OAdd "d" wit_val false;
+   OReload; ORemove "a" false].
+
+Lemma wit_hidx_len : forall a b, llen (wit_hidx a) = llen (wit_hidx b).
+Proof.
+  intros a b. unfold wit_hidx.
+  repeat match goal with |- context [String.eqb ?x ?y] => destruct (String.eqb x y) end; reflexivity.
+Qed.
+Lemma wit_hidx_pos : forall a, wit_hidx a <> [].
+Proof.
+  intros a. unfold wit_hidx.
+  repeat match goal with |- context [String.eqb ?x ?y] => destruct (String.eqb x y) end; discriminate.
+Qed.
+Lemma wit_ops_ok : Forall op_ok wit_ops.
+Proof. repeat constructor; cbn; discriminate. Qed.
+
+(** with the flag on (code as it is) the same history ends with RemoveChild of the
+    existing name "a" answering "maxLinks reached": the map specification is violated *)
+Lemma reload_total_refuted :
+  snd (run flags_code wit_cfg wit_hidx (init_dir false) wit_ops) =
+    [BRes None; BRes None; BRes None; BRes None; BReload true; BRes (Some EMaxLinks)] /\
+  spec_run wit_cfg wit_hidx (capped wit_cfg false) [] wit_ops
+           (snd (run flags_code wit_cfg wit_hidx (init_dir false) wit_ops)) = false /\
+  spec_run wit_cfg wit_hidx (capped wit_cfg false) [] wit_ops
+           (snd (run flags_spec wit_cfg wit_hidx (init_dir false) wit_ops)) = true.
+Proof. vm_compute. repeat split; reflexivity. Qed.
+
+(** the hypotheses on the hash function are met by the real thing: the index lists of
+    any two 8-byte digests have the same, non-zero length for every shard width 8..1024 *)
+Lemma digest_indices_len : forall lg2 b1 b2, 0 < lg2 <= 10 -> bytes_ok b1 -> bytes_ok b2 ->
+  llen b1 = 8%nat -> llen b2 = 8%nat ->
+  llen (indices lg2 b1) = llen (indices lg2 b2) /\ indices lg2 b1 <> [].
+Proof.
+  intros lg2 b1 b2 Hl H1 H2 L1 L2. rewrite !indices_length by (try assumption; lia). rewrite L1, L2.
+  split; [reflexivity|]. intros E. apply (f_equal (@List.length Z)) in E. rewrite indices_length in E by (try assumption; lia).
+  rewrite L1 in E. cbn [llen] in E. change (8 * Z.of_nat 8) with 64 in E.
+  assert (6 <= 64 / lg2) by (apply Z.div_le_lower_bound; lia). lia.
 Qed.
